@@ -5,13 +5,13 @@ go 1.26
 require (
 	github.com/anishathalye/porcupine v1.3.0
 	github.com/dapr/kit v0.0.0
+	github.com/spiffe/go-spiffe/v2 v2.1.7
 )
 
 require (
 	github.com/alphadose/haxmap v1.3.1 // indirect
 	github.com/fsnotify/fsnotify v1.7.0 // indirect
 	github.com/sirupsen/logrus v1.9.3 // indirect
-	github.com/spiffe/go-spiffe/v2 v2.1.7 // indirect
 	github.com/tidwall/transform v0.0.0-20201103190739-32f242e2dbde // indirect
 	github.com/zeebo/errs v1.3.0 // indirect
 	golang.org/x/crypto v0.24.0 // indirect
